@@ -783,7 +783,7 @@ pub fn candidates(spec: &Spec, k: usize, r: &mut Rng, random_extra: usize) -> Ve
             let free = !matches!(c.name.as_str(), "date" | "time" | "entry" | "offset" | "sign" | "bic" | "ccy" | "dcmark" | "dcmark61" | "neg" | "ttype" | "tcode" | "code13c" | "code23b" | "code71a" | "lineno" | "mt" | "type" | "func" | "days");
             let mut lens: Vec<usize> = vec![0, c.min.saturating_sub(1), c.min, c.max, c.max + 1, c.max + 2];
             if !free {
-                lens = vec![0, c.max.saturating_sub(1), c.max + 1];
+                lens = vec![0, c.max.saturating_sub(1), c.max + 1, c.max + 2];
             }
             lens.sort();
             lens.dedup();
@@ -869,7 +869,7 @@ pub fn candidates(spec: &Spec, k: usize, r: &mut Rng, random_extra: usize) -> Ve
             }
             // dates around the century window, a leap day, year ends
             if c.name == "date" {
-                for d in ["491231", "500101", "501231", "510101", "791231", "800101", "991231", "000101", "240229", "241230", "250101"] {
+                for d in ["491231", "500101", "501231", "510101", "791231", "800101", "991231", "000101", "240229", "241230", "250101", "20250615", "19240719", "2025-06-15", "15062025"] {
                     let over = |l2: usize, c2: usize, rep: usize| if l2 == li && c2 == ci && rep == 0 { Some(format!("{}{}", c.lit, d)) } else { None };
                     out.push(Candidate { content: render(spec, k, &over, &default_counts), component: comp_label.clone(), class: format!("date={d}") });
                 }
